@@ -976,8 +976,14 @@ impl InferContext {
 
     /// Check for circular references in type aliases
     fn check_type_alias_cycles(&mut self, type_aliases: &TypeAliasMap) {
-        let errors: Vec<_> = type_aliases
-            .iter()
+        // Report in source order: the iteration order of the alias map differs from one
+        // compilation to the next.
+        let mut aliases: Vec<_> = type_aliases.iter().collect();
+        aliases.sort_by_key(|(alias_name, target_type)| {
+            (target_type.to_loc().span.start, alias_name.as_str().to_string())
+        });
+        let errors: Vec<_> = aliases
+            .into_iter()
             .filter_map(|(alias_name, target_type)| {
                 Self::detect_type_alias_cycle(*alias_name, type_aliases).map(|cycle| {
                     Error::RecursiveTypeAlias {
